@@ -27,9 +27,11 @@ type c09Backend struct {
 	ws   map[string]bool
 }
 
-func newC09Backend() (*c09Backend, error) {
+func newC09Backend() (*c09Backend, error) { return newC09BackendOn("127.0.0.1:0") }
+
+func newC09BackendOn(addr string) (*c09Backend, error) {
 	b := &c09Backend{seen: map[string][]*rawhttp.Message{}, ws: map[string]bool{}}
-	s, err := rawhttp.NewServer(func(req *rawhttp.Message, reqErr error, conn net.Conn, br *bufio.Reader) bool {
+	s, err := rawhttp.NewServerOn(addr, func(req *rawhttp.Message, reqErr error, conn net.Conn, br *bufio.Reader) bool {
 		if reqErr != nil {
 			return false
 		}
@@ -80,6 +82,7 @@ type c09Case struct {
 	Class         string          `json:"class"`
 	ConnNominated bool            `json:"connection_nominates_field,omitempty"`
 	Path          string          `json:"path,omitempty"`
+	Trailers      bool            `json:"chunked_upload_with_identity_trailers,omitempty"`
 }
 
 // C09 — identity and credential headers are trustworthy.
@@ -201,6 +204,10 @@ func C09(r *core.Run) {
 								"keep-alive,X-Inverting-Proxy-User-ID", "close ,\tX-INVERTING-PROXY-USER-ID", "", "x-inverting-proxy-user-id , X-Other-" + tok}[k]})
 					}
 				}
+				if !c.Shim && i%6 == 2 {
+					c.Trailers = true
+					idKind += "+trailers"
+				}
 				if c.Shim {
 					c.URLForm = []string{"absolute", "absolute", "userinfo", "path-only", "userinfo-no-password"}[rng.Intn(5)]
 				}
@@ -230,6 +237,16 @@ func C09(r *core.Run) {
 						w.Line("POST /shim/open HTTP/1.1").Field("Host", "c09.example").Field("X-Tok", c.Tok).Fields(c.Fields).
 							Field("Content-Length", fmt.Sprint(len(body))).End()
 						w.WriteString(body)
+					} else if c.Trailers {
+						// a chunked upload whose trailer section names the identity and credential fields (announced or not):
+						// whatever happens to trailers, they must not turn into header fields the backend trusts
+						w.Line("POST "+c.Path+" HTTP/1.1").Field("Host", "c09.example").Field("X-Tok", c.Tok).Fields(c.Fields)
+						if tokHash(c.Tok)%2 == 0 {
+							w.Field("Trailer", "X-Inverting-Proxy-User-ID, Authorization")
+						}
+						w.Field("Transfer-Encoding", "chunked").End()
+						w.Chunk([]byte("body-" + c.Tok))
+						w.LastChunk([]rawhttp.Field{{Name: "X-Inverting-Proxy-User-ID", Value: "trailer-forged-" + c.Tok + "@evil.example"}, {Name: "Authorization", Value: "Bearer trailer-" + c.Tok}})
 					} else {
 						w.Line("GET "+c.Path+" HTTP/1.1").Field("Host", "c09.example").Field("X-Tok", c.Tok).Fields(c.Fields).End()
 					}
@@ -313,10 +330,88 @@ func C09(r *core.Run) {
 			}
 			r.Add("websocket_handshakes_observed", len(backend.ws))
 			judgeProcs(r, true, agent)
+			if cfg.fwd || cfg.strip {
+				c09BackendComesUpLate(r, agentBin, md, ci, cfgName, args, cfg.fwd, cfg.strip)
+			}
 		}(ci, cfg)
 	}
 	wg.Wait()
 	r.Set("agent_configurations", len(cfgs))
 	r.JudgeRaces(core.ParseRaceLogs(filepath.Join(r.WorkDir, "race-")))
 	r.Finish(r.Pick(200, 4000))
+}
+
+// c09BackendComesUpLate: requests with forged identity and credential fields
+// arrive while the backend port refuses connections; the backend starts to
+// listen a moment later.  A request may fail (502) - but if anything reaches
+// the backend, by whatever retry, it must carry trustworthy headers.
+func c09BackendComesUpLate(r *core.Run, agentBin string, md *fakes.Metadata, ci int, cfgName string, args []string, fwd, strip bool) {
+	px, err := fakes.NewProxy()
+	if err != nil {
+		r.Broken(err.Error())
+		return
+	}
+	defer px.Close()
+	px.ListWait = 30 * time.Millisecond
+	addr := fmt.Sprintf("127.0.0.1:%d", core.FreePort())
+	agent, err := startAgent(r, agentBin, fmt.Sprintf("agent%d-late", ci), md, px.URL(), addr, fmt.Sprintf("b9l-%d", ci), args...)
+	if err != nil {
+		r.Broken(err.Error())
+		return
+	}
+	defer agent.Kill()
+	for d := time.Now().Add(60 * time.Second); time.Now().Before(d) && px.Lists() == 0 && agent.Alive(); {
+		time.Sleep(10 * time.Millisecond)
+	}
+	if px.Lists() == 0 {
+		r.Inconclusive("C09 late-backend scenario: the agent never polled")
+		return
+	}
+	type lc struct{ tok, id string }
+	var cs []lc
+	for k := 0; k < 8; k++ {
+		tok := fmt.Sprintf("s%dg%dlate%d", r.Seed, ci, k)
+		id := "user-" + tok + "@example.com"
+		var w rawhttp.Builder
+		w.Line("GET /late/"+tok+" HTTP/1.1").Field("Host", "c09.example").Field("X-Tok", tok).
+			Field("X-Inverting-Proxy-User-ID", "forged-"+tok+"@evil.example").Field("Authorization", "Bearer secret-"+tok).
+			Field("x-inverting-proxy-user-id", "admin@example.com").End()
+		px.Enqueue(tok, w.Bytes(), id)
+		cs = append(cs, lc{tok, id})
+		time.Sleep(20 * time.Millisecond)
+	}
+	backend, err := newC09BackendOn(addr)
+	if err != nil {
+		r.Inconclusive("C09 late-backend scenario: cannot listen on " + addr + ": " + err.Error())
+		return
+	}
+	defer backend.Srv.Close()
+	for _, c := range cs {
+		px.Wait(c.tok, 10*time.Second)
+	}
+	time.Sleep(600 * time.Millisecond) // a late retry, if any, has happened by now
+	reached := 0
+	for _, c := range cs {
+		r.Case(cfgName + "|backend-comes-up-late")
+		backend.mu.Lock()
+		reqs := backend.seen[c.tok]
+		backend.mu.Unlock()
+		for _, req := range reqs {
+			reached++
+			var ids []string
+			for _, f := range req.Fields {
+				if strings.EqualFold(f.Name, "X-Inverting-Proxy-User-ID") {
+					ids = append(ids, f.Value)
+				}
+				if strip && strings.EqualFold(f.Name, "Authorization") {
+					r.Violate("C09:authorization-forwarded:plain:after-backend-came-up", fmt.Sprintf("%s: a request that first met a refused connection reached the backend with %s: %s", cfgName, f.Name, f.Value), nil, req.Fields)
+				}
+			}
+			if fwd && (len(ids) != 1 || ids[0] != c.id) {
+				r.Violate("C09:user-id:untrusted:plain:after-backend-came-up", fmt.Sprintf("%s: a request that first met a refused connection reached the backend with X-Inverting-Proxy-User-ID %q, the proxy asserted %q", cfgName, ids, c.id), nil, req.Fields)
+			}
+		}
+	}
+	r.Add("late_backend_requests_that_reached_the_backend", reached)
+	judgeProcs(r, true, agent)
 }
